@@ -309,6 +309,11 @@ def gen(seed, tier, want=None):
             for W2, tail in ((70003, "q z"), (65536 + rng.randint(1, 900), "q--z"), (131075, "qz z")):
                 h2 = [ord("x")] * (W2 - len(tail)) + [ord(c) for c in tail]
                 emit(lines, cfg[:3] + rng.choice("01"), "FGS", h2, [ord("q"), ord("z")] if "qz" not in tail else [ord("z"), ord("z")], rng)
+            # the window starts just beyond a multiple of 65536 with prefix preference ON: the decayed prefix bonus is
+            # computed from start - 1, which must saturate (not wrap) when narrowed to 16 bits (round 6, C10-m12)
+            for d in (1, 3, 9):
+                h2 = [ord("x")] * (65536 + d) + [ord(c) for c in "q z"]
+                emit(lines, cfg[:3] + "1", "FG", h2, [ord("q"), ord("z")], rng)
     # ---- range edges and case twins: one- and two-character needles over the characters at the edges of the ASCII
     #      digit / letter ranges and their +-32 neighbours ('@' 'A' 'Z' '[' '`' 'a' 'z' '{' '0' '9' '/' ':'), haystacks that hold
     #      the needle character, its case twin and its +-32 neighbour at differently rewarded positions ----
